@@ -185,6 +185,10 @@ func c05() {
 			default:
 				tp = tpolicy{t, vlib.GenMixed(r, t, vlib.DefaultMixed()), "mixed"}
 			}
+			if i%9 == 5 {
+				run.Count("policies_with_data_bits_in_group_actions", 1)
+				vlib.WithDataBits(r, tp.p)
+			}
 		default:
 			sc := sizedCases[i-nCat-nRandom]
 			p := sizedPolicy(sc.t, sc.target, sc.variant)
